@@ -265,6 +265,24 @@ def corruptions(rng, doc, root_b64, sec):
     d = copy.deepcopy(doc)
     el(d, "attestation")["auth_data"] = rb(rng, 16).hex()
     out.append(("replace-auth-data", d, root_b64, NOW))
+    # an attacker's attestation key declaring no auth data, and a quote signed with it: only the
+    # binding of (key || auth data) to the quoting enclave's report stands in the way
+    atk = new_key(rng)
+    d = copy.deepcopy(doc)
+    el(d, "attestation")["key"] = (b"\x04" + raw_xy(atk.public_key())).hex()
+    el(d, "attestation")["auth_data"] = ""
+    el(d, "quote")["signature"] = sign_digest(atk, hashlib.sha256(sec["quote"]).digest()).hex()
+    out.append(("attacker-key-empty-auth", d, root_b64, NOW))
+    # quotes longer than the 432-byte structure: the signature covers every byte of the message
+    if "att" in sec:
+        tail = rb(rng, 16)
+        d = copy.deepcopy(doc)
+        el(d, "quote")["message"] = (sec["quote"] + tail).hex()
+        el(d, "quote")["signature"] = sign_digest(sec["att"], hashlib.sha256(sec["quote"] + tail).digest()).hex()
+        out.append(("longquote-signed-in-full", d, root_b64, NOW))
+        d = copy.deepcopy(doc)
+        el(d, "quote")["message"] = (sec["quote"] + tail).hex()          # bytes appended after signing
+        out.append(("longquote-unsigned-tail", d, root_b64, NOW))
     # re-parenting
     d = copy.deepcopy(doc)
     el(d, "quote")["signed_by"] = "quoting_enclave"
